@@ -31,6 +31,7 @@
 #include <sys/stat.h>
 #include <fcntl.h>
 
+#include <chrono>
 #include <climits>
 #include <dirent.h>
 
@@ -525,10 +526,11 @@ struct Rec {
   long long k = 0;
   std::string stage, id, counts, fate, what, input, ops, impl, sample;
   uint64_t nontrivialHash = 0;
+  double seconds = 0;
 };
 static void writeRec(std::ostream &os, const Rec &r) {
   os << r.k << FS << r.stage << FS << r.id << FS << r.counts << FS << r.fate << FS << r.what << FS << r.input << FS << r.ops
-     << FS << r.impl << FS << r.sample << FS << r.nontrivialHash << RS;
+     << FS << r.impl << FS << r.sample << FS << r.nontrivialHash << FS << r.seconds << RS;
   os.flush();
 }
 static std::vector<Rec> readRecs(const std::string &path) {
@@ -555,6 +557,7 @@ static std::vector<Rec> readRecs(const std::string &path) {
     Rec r;
     r.k = atoll(fl[0].c_str()); r.stage = fl[1]; r.id = fl[2]; r.counts = fl[3]; r.fate = fl[4]; r.what = fl[5];
     r.input = fl[6]; r.ops = fl[7]; r.impl = fl[8]; r.sample = fl[9]; r.nontrivialHash = strtoull(fl[10].c_str(), nullptr, 10);
+    if (fl.size() > 11) r.seconds = atof(fl[11].c_str());
     out.push_back(r);
   }
   return out;
@@ -567,6 +570,7 @@ static Rec flowRecord(const std::string &id, long long k, const Case &cs, int ti
   Rec r;
   r.k = k; r.stage = "F"; r.id = id;
   std::string output, diag;
+  auto t0 = std::chrono::steady_clock::now();
   std::string fate = vh::isolated([&](std::ostream &os) { runFlow(cs, os); }, output, timeout, &diag);
   bool retried = false;
   if (fate == "timeout") {
@@ -604,6 +608,7 @@ static Rec flowRecord(const std::string &id, long long k, const Case &cs, int ti
   sm << cs.kind << "/" << SHAPES[cs.shape] << " seq=" << cs.seq << " cells=" << cs.spec.n() << " rows=" << cs.spec.rows.size()
      << " nets=" << cs.spec.nets.size() << " maxabs=" << cs.spec.maxAbs() << " -> " << fate;
   r.sample = sm.str();
+  r.seconds = std::chrono::duration<double>(std::chrono::steady_clock::now() - t0).count();
   return r;
 }
 
@@ -1096,6 +1101,18 @@ int main(int argc, char **argv) {
       out.count("oracle_fail_" + tag);
       if (++perTag[tag] <= 25) out.fail(r.id, r.what, r.input);
     }
+  }
+  {
+    std::vector<const Rec *> byTime;
+    for (auto &r : recs) if (r.stage == "F" || r.stage == "C") byTime.push_back(&r);
+    std::sort(byTime.begin(), byTime.end(), [](const Rec *x, const Rec *y) { return x->seconds > y->seconds; });
+    std::string note = "slowest flow cases:";
+    for (size_t i = 0; i < byTime.size() && i < 4; ++i) {
+      char b[64];
+      snprintf(b, sizeof b, " %.0fs ", byTime[i]->seconds);
+      note += b + byTime[i]->id + " (" + byTime[i]->sample + ");";
+    }
+    out.notes.push_back(note);
   }
   out.evaluations += out.dist["rowleg_domain_instances"] + out.dist["abacus_eval_instances"];
   if (workerDied) out.notes.push_back("a worker process died: results are incomplete");
